@@ -2,13 +2,13 @@
 from common import *
 import c15_fixed
 
-HEADER = ("From Coq Require Import List String Ascii.\nImport ListNotations.\nFrom DV Require Import Docs.Model.\n"
+HEADER = ("From Coq Require Import List String Ascii.\nImport ListNotations.\nFrom DV Require Import gen.Tables Docs.Model.\n"
           "Open Scope string_scope.")
 COQ_TYP = {"Struct": "DStruct", "StructField": "DStructField", "Enum": "DEnum", "EnumVariant": "DEnumVariant", "EnumVariantField": "DEnumVariantField",
            "Trait": "DTrait", "FnInStruct": "DFnInStruct", "FnInTypedef": "DFnInTypedef", "FnInEnum": "DFnInEnum", "FnInTrait": "DFnInTrait",
-           "DefaultFnInTrait": "DDefaultFnInTrait", "Fn": "DFn", "Mod": "DMod", "Constant": "DConstant", "AssociatedConstantInEnum": "DAssocConstInEnum",
-           "AssociatedConstantInTrait": "DAssocConstInTrait", "AssociatedConstantInStruct": "DAssocConstInStruct", "Macro": "DMacro",
-           "AssociatedTypeInEnum": "DAssocTypeInEnum", "AssociatedTypeInTrait": "DAssocTypeInTrait", "AssociatedTypeInStruct": "DAssocTypeInStruct",
+           "DefaultFnInTrait": "DDefaultFnInTrait", "Fn": "DFn", "Mod": "DMod", "Constant": "DConstant", "AssociatedConstantInEnum": "DAssociatedConstantInEnum",
+           "AssociatedConstantInTrait": "DAssociatedConstantInTrait", "AssociatedConstantInStruct": "DAssociatedConstantInStruct", "Macro": "DMacro",
+           "AssociatedTypeInEnum": "DAssociatedTypeInEnum", "AssociatedTypeInTrait": "DAssociatedTypeInTrait", "AssociatedTypeInStruct": "DAssociatedTypeInStruct",
            "Typedef": "DTypedef"}
 assert [k for k, _ in c15_fixed.DOC_KINDS] == list(COQ_TYP)
 DISP = {None: "Normal", "normal": "Normal", "compact": "Compact", "hidden": "Hidden"}
